@@ -865,6 +865,10 @@ func (c *CertificateContext) Sign(alg SignatureAlgorithm) (*Certificate, error) 
 		out.TBSCertificate.SignatureAlgorithm = pkix.AlgorithmIdentifier{
 			Algorithm: sigAlgOids[alg],
 		}
+		if alg <= RSAwithSHA512 {
+			//RFC 4055: PKCS#1 v1.5 signature identifiers carry NULL parameters
+			out.TBSCertificate.SignatureAlgorithm.Parameters = asn1.NullRawValue
+		}
 	}
 	out.TBSCertificate.Issuer = c.Issuer.IssuerDn
 
@@ -893,6 +897,9 @@ func (c *CertificateContext) Sign(alg SignatureAlgorithm) (*Certificate, error) 
 	hashAlgId, hashAlg, out.SignatureAlgorithm.Algorithm, wantKey, err = resolveAlg(alg)
 	if err != nil {
 		return nil, err
+	}
+	if wantKey == rsaKey {
+		out.SignatureAlgorithm.Parameters = asn1.NullRawValue
 	}
 
 	hashAlg.Write(b)
